@@ -37,7 +37,9 @@ MkTable(L) ==
   LET n == Len(L)
       cnt == TLCEval([l \in 1..15 |-> Cardinality({i \in 1..n : L[i] = l})])
       syms == FoldLeft(LAMBDA acc, l : acc \o SelectSeq([i \in 1..n |-> i - 1], LAMBDA s : L[s + 1] = l), <<>>, R15)
-  IN [cnt |-> cnt, sym |-> syms, used |-> Len(syms)]
+      present == {l \in 1..9 : cnt[l] > 0}
+  IN [cnt |-> cnt, sym |-> syms, used |-> Len(syms),
+      minLen |-> IF present = {} THEN 1 ELSE CHOOSE l \in present : \A k \in present : l <= k]
 (* Kraft sum in units of 2^-15: 32768 = complete, more = over-subscribed, less = incomplete *)
 Kraft(L) == FoldLeft(LAMBDA acc, i : acc + (IF L[i] = 0 THEN 0 ELSE P2(15 - L[i])), 0, Range1(Len(L)))
 
@@ -50,7 +52,12 @@ DecSym(T, w, len, code, first, index) ==
            ct == T.cnt[len]
        IN IF c - ct < first THEN <<T.sym[index + (c - first) + 1], len>>
           ELSE DecSym(T, w, len + 1, 2 * c, 2 * (first + ct), index + ct)
-Sym(T, w) == DecSym(T, w, 1, 0, 0, 0)
+(* the first minLen-1 levels cannot match (no codes that short): enter the loop at level minLen with the
+   bits read so far already accumulated (bit-reversed through a constant 9-bit table) *)
+RevTab9 == TLCEval([x \in 0..511 |-> RevBits(x, 9)])
+Sym(T, w) == LET m == T.minLen IN
+             IF m = 1 THEN DecSym(T, w, 1, 0, 0, 0)
+             ELSE DecSym(T, w, m, 2 * (RevTab9[w % P2(m - 1)] \div P2(10 - m)), 0, 0)
 
 FixedLL == [i \in 1..288 |-> IF i <= 144 THEN 8 ELSE IF i <= 256 THEN 9 ELSE IF i <= 280 THEN 7 ELSE 8]
 FixedD  == [i \in 1..30 |-> 5]         \* codes 30,31 of the 5-bit space are unassigned => invalid symbol
@@ -177,13 +184,16 @@ Run(S, dict, st) ==
   ELSE Run(S, dict, FoldLeft(LAMBDA a, i : Step(S, dict, a, i), st, R512))
 
 (* ---------------- public results ---------------- *)
-Decode(S, dict, startBit) ==
-  LET st == Run(S, dict, Init0(startBit)) IN
+ResultOf(S, st) ==
   [tag |-> CASE st.phase = "done" -> "Valid" [] st.phase = "needmore" -> "NeedMore" [] OTHER -> "Invalid",
    out |-> Flatten(st), n |-> st.total, endBit |-> st.pos, blocks |-> st.blocks, lenient |-> st.lenient,
    class |-> st.class, failBit |-> st.failBit,
-   \* input exhausted exactly after an end-of-block (or before any block)
-   atBoundary |-> (st.phase = "needmore" /\ st.prev = "hdr" /\ st.pos = TotalBits(S))]
+   \* input exhausted exactly where a block header is expected (after an end-of-block, or before any block)
+   atBoundary |-> (st.phase = "needmore" /\ st.prev = "hdr" /\ st.pos = TotalBits(S)),
+   st |-> st]
+Decode(S, dict, startBit) == ResultOf(S, Run(S, dict, Init0(startBit)))
+(* continue a decode that stopped for lack of input, now that S has grown (S must extend the old input) *)
+Resume(S, dict, st) == ResultOf(S, Run(S, dict, IF st.phase = "needmore" THEN [st EXCEPT !.phase = st.prev] ELSE st))
 DecodeRaw(S) == Decode(S, <<>>, 0)
 EndByte(r) == (r.endBit + 7) \div 8
 =============================================================================
